@@ -13,9 +13,12 @@ from common import Atom, a_int, a_rat, deep, dec, req
 
 RULE = (
     "cases = (score vector from a small value pool so ties are frequent, label vector, direction, dtype, "
-    "label encoding, entry point); distinct = distinct (weak ordering pattern, labels, direction); "
+    "label encoding and its integer/float width, array layout, entry point — the label entry points receive the labels in "
+    "the generated encoding too); distinct = distinct (weak ordering pattern, labels, direction); "
     "non-trivial = at least one tie or at least one decoy above a target; thorough adds the exhaustive sweep "
-    "over all weak orderings x labellings for n <= 6 (3 score values) and both directions"
+    "over all weak orderings x labellings for n <= 6 (3 score values) and both directions; besides: refused inputs "
+    "(length mismatch, non-0/1 labels, per entry point) against the validated model entry, and the helper "
+    "_fdr2qvalue called directly on arrays satisfying its contract against the model of its loop"
 )
 
 
@@ -37,6 +40,9 @@ def impl_tdc(scores, labels, desc, entry):
     if entry == "qvalues_from_scores":
         assert desc
         return Q.qvalues_from_scores(scores, labels, "tdc")
+    if entry == "qvalues_from_scores-default-algorithm":   # documented default: 'tdc'
+        assert desc
+        return Q.qvalues_from_scores(scores, labels)
     raise AssertionError(entry)
 
 
@@ -49,8 +55,10 @@ def impl_labels(scores, targets, thr, desc, entry):
         assert desc
         return D._update_labels(scores, targets, thr)
     if entry == "_update_labels-series":      # feature columns arrive as pandas Series
-        return D._update_labels(pd.Series(np.asarray(scores, dtype=float)), pd.Series(np.asarray(targets, dtype=bool)),
+        return D._update_labels(pd.Series(np.asarray(scores, dtype=float)), pd.Series(np.asarray(targets)),
                                 thr, desc)
+    if entry == "_update_labels-array-scores-series-targets":   # OnDiskPsmDataset.update_labels / update_labels()
+        return D._update_labels(np.asarray(scores, dtype=float), pd.Series(np.asarray(targets)), thr, desc)
     if entry == "LinearPsmDataset-column":
         df = pd.DataFrame({"t": targets, "spec": np.arange(len(scores)),
                            "pep": [f"P{i}" for i in range(len(scores))], "f": np.asarray(scores, dtype=float)})
@@ -73,8 +81,15 @@ def impl_labels(scores, targets, thr, desc, entry):
     raise AssertionError(entry)
 
 
-SCORE_DTYPES = ["float64", "float64", "float32", "int8", "uint8", "int64"]
+SCORE_DTYPES = ["float64", "float64", "float64", "float32", "float32", "int8", "uint8", "int64", "int16", "uint16",
+                "int32", "uint32", "uint64"]
+UNSIGNED = ("uint8", "uint16", "uint32", "uint64")
+SIGNED = ("int8", "int16", "int32", "int64")
 LABEL_KINDS = ["bool", "int01", "float01"]
+# width of the 0/1 encodings ("all supported dtypes")
+LABEL_DTYPES = {"bool": ["bool"], "int01": ["int64", "int64", "int8", "uint8", "int32", "uint16"],
+                "float01": ["float64", "float64", "float32", "float16"]}
+LAYOUTS = ["C", "C", "C", "strided", "neg-stride", "readonly"]
 
 
 def gen_case(rng, nmax):
@@ -82,17 +97,37 @@ def gen_case(rng, nmax):
     n = min(n, nmax)
     pool = rng.randint(1, max(1, n))
     sdt = rng.choice(SCORE_DTYPES)
-    if sdt == "uint8":
+    vstyle = "small-integers"
+    if sdt in UNSIGNED:
         vals = rng.sample(range(0, 200), pool)
-    elif sdt in ("int8", "int64"):
+        if sdt != "uint8" and rng.random() < 0.5:      # wide values, still exact in float32 (< 2^24)
+            m = rng.choice([300] if sdt == "uint16" else [300, 60000])
+            vals = [v * m for v in vals]
+    elif sdt in SIGNED:
         vals = rng.sample(range(-100, 100), pool)
+        if sdt in ("int32", "int64") and rng.random() < 0.5:
+            vals = [v * 60000 for v in vals]
+        elif sdt == "int16" and rng.random() < 0.5:
+            vals = [v * 300 for v in vals]
+    elif sdt == "float64" and rng.random() < 0.3:
+        # arbitrary doubles (not short dyadic numbers): any magnitude, neighbours one ulp apart; the wire carries
+        # the exact rational value of each double
+        mag = rng.choice([-300, -30, -6, 0, 0, 4, 30, 300])
+        base = [rng.gauss(0, 1) * 10.0 ** mag for _ in range(max(1, pool // 2 + 1))]
+        vals = []
+        for b in base:
+            vals += [b, float(np.nextafter(b, np.inf)), float(np.nextafter(b, -np.inf))][: rng.randint(1, 3)]
+        vals = [Fraction(v) for v in vals[:max(pool, 1)]]
+        vstyle = "arbitrary-doubles"
     elif sdt == "float64" and rng.random() < 0.6:
         # distinct float64 values that collapse to one float32 value (near-ties must stay distinct)
         base = [Fraction(rng.randint(-40, 40), rng.choice([1, 2, 4])) for _ in range(max(1, pool // 3 + 1))]
         vals = [b + Fraction(k, 2 ** 30) for b in base for k in range(3)][:max(pool, 1)]
+        vstyle = "near-ties-2^-30"
     else:
         # dyadic rationals: exactly representable in float32 and float64
         vals = [Fraction(rng.randint(-4000, 4000), rng.choice([1, 2, 4, 8, 16])) for _ in range(pool)]
+        vstyle = "dyadic"
     scores = [rng.choice(vals) for _ in range(n)]
     pat = rng.choice(["mixed", "mixed", "mixed", "all_target", "all_decoy", "decoy_top", "target_top"])
     if pat == "mixed":
@@ -110,7 +145,36 @@ def gen_case(rng, nmax):
             labels[i] = (r >= k) if pat == "decoy_top" else (r < k)
     desc = rng.random() < 0.5
     lk = rng.choice(LABEL_KINDS)
-    return dict(scores=scores, labels=labels, desc=desc, sdtype=sdt, lkind=lk, pat=pat)
+    return dict(scores=scores, labels=labels, desc=desc, sdtype=sdt, lkind=lk, ldtype=rng.choice(LABEL_DTYPES[lk]),
+                layout=rng.choice(LAYOUTS), pat=pat, vstyle=vstyle)
+
+
+BOUNDARY = [(10, 0, 0.1), (20, 1, 0.1), (30, 2, 0.1), (20, 0, 0.05), (40, 1, 0.05), (10, 2, 0.3), (20, 5, 0.3),
+            (100, 0, 0.01), (4, 0, 0.25), (2, 0, 0.5), (10, 0, 0.3), (20, 0, 0.1)]
+
+
+def gen_boundary_case(rng):
+    """a prefix of T targets and D decoys whose FDR (D+1)/T is, as a rational, the decimal threshold (or just
+    beside it): the stored single precision q-value and the double precision threshold then differ only by
+    rounding, which is where `qvals > eval_fdr` is decided"""
+    T, D, thr = rng.choice(BOUNDARY)
+    top = [True] * T + [False] * D
+    rng.shuffle(top)
+    if top[-1] is False and T:                 # the prefix has to end on a target for its FDR to be attained
+        i = top.index(True)
+        top[i], top[-1] = top[-1], top[i]
+    tail = [False] * rng.randint(1, 4) + [rng.random() < 0.3 for _ in range(rng.randint(0, 3))]
+    labels = top + tail
+    n = len(labels)
+    tied = rng.random() < 0.3
+    scores = [Fraction(2 * n - (i // 2 if tied else i)) for i in range(n)]
+    desc = rng.random() < 0.5
+    if not desc:
+        scores = [-x for x in scores]
+    order = list(range(n))
+    rng.shuffle(order)
+    return dict(scores=[scores[i] for i in order], labels=[labels[i] for i in order], desc=desc, sdtype="float64",
+                lkind="bool", pat="fdr-at-threshold", thr=Fraction(thr))
 
 
 def gen_eps_case(rng):
@@ -133,16 +197,44 @@ def gen_eps_case(rng):
                 lkind="bool", pat="eps-above-decoy")
 
 
+def with_layout(a, layout):
+    """the same values behind another memory layout (views as produced by slicing a bigger table)"""
+    if layout == "strided":
+        big = np.zeros(2 * len(a) + 1, dtype=a.dtype)
+        big[1::2] = a
+        return big[1::2]
+    if layout == "neg-stride":
+        return np.array(a[::-1])[::-1]
+    if layout == "readonly":
+        b = np.array(a)
+        b.flags.writeable = False
+        return b
+    return a
+
+
+def label_array(lab, lkind, ldtype=None):
+    if lkind == "bool":
+        return np.array(lab, dtype=bool)
+    if lkind == "int01":
+        return np.array([1 if b else 0 for b in lab], dtype=ldtype or np.int64)
+    return np.array([1.0 if b else 0.0 for b in lab], dtype=ldtype or np.float64)
+
+
 def to_arrays(case):
     s = np.array([float(x) for x in case["scores"]], dtype=case["sdtype"])
-    lab = case["labels"]
-    if case["lkind"] == "bool":
-        t = np.array(lab, dtype=bool)
-    elif case["lkind"] == "int01":
-        t = np.array([1 if b else 0 for b in lab], dtype=np.int64)
-    else:
-        t = np.array([1.0 if b else 0.0 for b in lab], dtype=np.float64)
-    return s, t
+    assert all(Fraction(float(v)) == Fraction(x) for v, x in zip(s.tolist(), case["scores"])), "score not exact in dtype"
+    t = label_array(case["labels"], case["lkind"], case.get("ldtype"))
+    lay = case.get("layout", "C")
+    return with_layout(s, lay), with_layout(t, lay)
+
+
+WIRE_KIND = {"bool": "bool", "int01": "int", "float01": "float"}
+
+
+def wire_labels(lab, lkind):
+    if lkind == "bool":
+        return [bool(b) for b in lab]
+    return [1 if b else 0 for b in lab] if lkind == "int01" else [Fraction(1 if b else 0) for b in lab]
 
 
 def pattern_key(case):
@@ -177,12 +269,16 @@ def eval_cases(chk, cases, entries_q, with_labels=True):
         lines.append(req("tdc", c["desc"], ps))
         lines.append(req("qspec", c["desc"], ps))
         lines.append(req("labels", c["desc"], c["thr"], ps))
+        lines.append(req("tdcarr", c["desc"], ps))
     resp = common.driver_batch(lines)
     for k, c in enumerate(cases):
-        m = deep(a_rat, dec(resp[3 * k]))
-        sp = deep(a_rat, dec(resp[3 * k + 1]))
-        ml = deep(a_int, dec(resp[3 * k + 2]))
+        m = deep(a_rat, dec(resp[4 * k]))
+        sp = deep(a_rat, dec(resp[4 * k + 1]))
+        ml = deep(a_int, dec(resp[4 * k + 2]))
+        ma = dec(resp[4 * k + 3])
+        ma = deep(a_rat, ma) if isinstance(ma, list) else ma
         s, t = to_arrays(c)
+        s0, t0 = s.copy(), t.copy()
         entry = c["entry"]
         try:
             q = np.asarray(impl_tdc(s, t, c["desc"], entry), dtype=float)
@@ -197,15 +293,22 @@ def eval_cases(chk, cases, entries_q, with_labels=True):
         chk.count("n", min(len(s), 64) if len(s) < 10 else (len(s) // 10) * 10)
         chk.count("sdtype", c["sdtype"])
         chk.count("lkind", c["lkind"])
+        chk.count("ldtype", c.get("ldtype", "default"))
+        chk.count("layout", c.get("layout", "C"))
         chk.count("entry", entry)
         chk.count("desc", c["desc"])
         chk.count("pattern", c["pat"])
+        chk.count("score-values", c.get("vstyle", c["pat"]))
         chk.count("ties", len(set(c["scores"])) < len(c["scores"]))
         exp_spec = [rounded(x) for x in sp]
         exp_model = [rounded(x) for x in m]
         got = [float(x) for x in q]
         spec_ok = len(got) == len(exp_spec) and all(a == b for a, b in zip(got, exp_spec))
         model_ok = len(got) == len(exp_model) and all(a == b for a, b in zip(got, exp_model))
+        arr_ok = isinstance(ma, list) and len(got) == len(ma) and all(a == rounded(b) for a, b in zip(got, ma))
+        if not (np.array_equal(s, s0) and np.array_equal(t, t0)):
+            chk.spec_violation(f"input-modified:{entry}",
+                               dict(case=jsonable(c), clause="tdc changed the caller's score or label array"))
         if not spec_ok:
             chk.spec_violation(
                 f"qvalue-formula:{entry}",
@@ -214,28 +317,44 @@ def eval_cases(chk, cases, entries_q, with_labels=True):
             )
         elif not model_ok:
             chk.corr_break("tdc", dict(case=jsonable(c), impl=got, model=[str(x) for x in m]))
+        elif not arr_ok:
+            chk.corr_break("tdcarr", dict(case=jsonable(c), impl=got,
+                                          model=[str(x) for x in ma] if isinstance(ma, list) else ma))
         if not with_labels:
             continue
-        # labels
+        # labels: the label entry points get the labels in the generated encoding, not only as bool
         thr = float(c["thr"])
-        boundary = any((rounded(x) > thr) != (x > c["thr"]) for x in sp)
-        if boundary:
-            chk.float_boundary += 1
-            continue
         lentry = c["lentry"]
+        llk = c.get("llkind", "bool")
+        lt = with_layout(label_array(c["labels"], llk, c.get("lldtype")), c.get("layout", "C"))
+        # one signature per entry point for everything that goes wrong with a 0/1 int / float labelling
+        lsig = f"labels:{lentry}" if llk == "bool" else f"labels-nonbool-encoding:{lentry.split('-default')[0]}"
         try:
-            lab = impl_labels(s if lentry == "_update_labels" else s, np.array(c["labels"], dtype=bool), thr,
-                              c["desc"], lentry)
+            lab = impl_labels(s, lt, thr, c["desc"], lentry)
         except Exception as e:
-            chk.spec_violation("exception-labels:" + type(e).__name__,
+            chk.spec_violation(lsig if llk != "bool" else f"exception-labels:{type(e).__name__}",
                                dict(case=jsonable(c), error=repr(e), clause="_update_labels raised"))
             continue
         chk.count("lentry", lentry)
+        chk.count("labels-encoding-at-label-entry", f"{llk}:{c.get('lldtype', 'bool')}")
         lab = [int(x) for x in lab]
+        boundary = any((rounded(x) > thr) != (x > c["thr"]) for x in sp)
+        if boundary:
+            # q-value and threshold differ by less than the rounding of the stored (single precision) q-value:
+            # the labels are "derived from them", i.e. from the q-values as returned (checked above to be the
+            # rounded formula), so that is what is compared here
+            chk.float_boundary += 1
+            exp_r = [(-1 if not l else (1 if rounded(x) <= thr else 0)) for l, x in zip(c["labels"], sp)]
+            if lab != exp_r:
+                chk.spec_violation(
+                    f"labels-vs-returned-q:{lentry}",
+                    dict(case=jsonable(c), impl=lab, expected=exp_r,
+                         clause="training labels differ from the ones derived from the returned q-values"))
+            continue
         exp = [(-1 if not l else (1 if x <= c["thr"] else 0)) for l, x in zip(c["labels"], sp)]
         if lab != exp:
             chk.spec_violation(
-                f"labels:{lentry}",
+                lsig,
                 dict(case=jsonable(c), impl=lab, expected=exp, clause="training labels differ from spec"),
             )
         elif lab != ml:
@@ -261,12 +380,17 @@ def decorate(rng, c):
     c["entry"] = "qvalues_from_scores" if (c["desc"] and rng.random() < 0.3) else "tdc"
     if c["desc"] and c["entry"] == "tdc" and rng.random() < 0.25:
         c["entry"] = "tdc-default-direction"
-    c["lentry"] = rng.choice(["_update_labels", "LinearPsmDataset", "_update_labels-series", "LinearPsmDataset-column"])
+    if c["entry"] == "qvalues_from_scores" and rng.random() < 0.3:
+        c["entry"] = "qvalues_from_scores-default-algorithm"
+    c["lentry"] = rng.choice(["_update_labels", "LinearPsmDataset", "_update_labels-series", "LinearPsmDataset-column",
+                              "_update_labels-array-scores-series-targets"])
     if c["lentry"] == "_update_labels" and c["desc"] and rng.random() < 0.3:
         c["lentry"] = "_update_labels-default-direction"
-    if c["lentry"].startswith("_update_labels") and c["lentry"] != "_update_labels-series" and c["sdtype"] not in ("float64",):
-        # typeguard on `_update_labels` wants float arrays; integer/float32 score dtypes go through tdc only
-        pass
+    # encoding of the labels handed to the label entry point (half of the cases: the case's own encoding)
+    if rng.random() < 0.5:
+        c["llkind"], c["lldtype"] = c["lkind"], c.get("ldtype")
+    else:
+        c["llkind"], c["lldtype"] = "bool", "bool"
     return c
 
 
@@ -304,6 +428,200 @@ def malformed(chk, rng, n):
             chk.corr_break("declabels", dict(kind=kind, labels=[str(v) for v in vals], impl=got, model=exp))
 
 
+# ----------------------------------------------------------------------------------------------
+# refused inputs: the validation block of tdc (qvalues.py:84-102) seen through every entry point,
+# against the validated model entry (`tdcchk` / `labelschk`)
+# ----------------------------------------------------------------------------------------------
+V_ENTRIES = ["tdc", "qvalues_from_scores", "_update_labels", "_update_labels-series-targets"]
+
+
+def gen_vcase(rng):
+    n = rng.choice([1, 2, 2, 3, 4, 5, 8, 12])
+    kind = rng.choice(["length", "length", "labels", "both", "valid"])
+    lk = rng.choice(LABEL_KINDS)
+    m = n
+    if kind in ("length", "both"):
+        m = rng.choice([k for k in (1, 2, 3, 4, 5, 6, 8, 9, 12, 13, 20) if k != n])
+    labels = [rng.random() < 0.5 for _ in range(m)]
+    raw = wire_labels(labels, lk)
+    if kind in ("labels", "both"):
+        if lk == "bool":
+            lk = rng.choice(["int01", "float01"])
+            raw = wire_labels(labels, lk)
+        j = rng.randrange(m)
+        bad = rng.choice([2, -1, 3, 255]) if lk == "int01" else rng.choice([Fraction(1, 2), Fraction(2), Fraction(-1)])
+        raw[j] = bad
+    scores = [Fraction(rng.randint(-20, 20), rng.choice([1, 2])) for _ in range(n)]
+    return dict(scores=scores, raw=raw, lkind=lk, desc=rng.random() < 0.5, thr=Fraction(rng.choice([0.25, 0.5, 0.3])),
+                ventry=rng.choice(V_ENTRIES), vkind=kind)
+
+
+def vjson(c):
+    return dict(c, scores=[str(x) for x in c["scores"]], raw=[str(x) for x in c["raw"]], thr=str(c["thr"]))
+
+
+def vfrom_json(d):
+    c = dict(d)
+    c["scores"] = [Fraction(x) for x in d["scores"]]
+    c["raw"] = [(x == "True") if d["lkind"] == "bool" else Fraction(x) for x in d["raw"]]
+    if d["lkind"] == "int01":
+        c["raw"] = [int(x) for x in c["raw"]]
+    c["thr"] = Fraction(d["thr"])
+    return c
+
+
+def eval_vcases(chk, cases):
+    import mokapot.qvalues as Q
+    import mokapot.dataset as D
+
+    lines = []
+    for c in cases:
+        ve = c["ventry"]
+        if ve == "qvalues_from_scores":
+            c["desc"] = True
+        if ve in ("tdc", "qvalues_from_scores"):
+            lines.append(req("tdcchk", c["desc"], c["scores"], Atom(WIRE_KIND[c["lkind"]]), c["raw"]))
+        else:
+            lines.append(req("labelschk", c["desc"], c["thr"], ve.endswith("series-targets"), c["scores"],
+                             Atom(WIRE_KIND[c["lkind"]]), c["raw"]))
+    resp = common.driver_batch(lines)
+    for c, r in zip(cases, resp):
+        ve = c["ventry"]
+        model = dec(r)
+        s = np.array([float(x) for x in c["scores"]], dtype=float)
+        dt = {"bool": bool, "int01": np.int64, "float01": np.float64}[c["lkind"]]
+        t = np.array([float(x) if c["lkind"] == "float01" else x for x in c["raw"]], dtype=dt)
+        try:
+            if ve == "tdc":
+                out = Q.tdc(s, t, desc=c["desc"])
+            elif ve == "qvalues_from_scores":
+                out = Q.qvalues_from_scores(s, t, "tdc")
+            elif ve == "_update_labels":
+                out = D._update_labels(s, t, float(c["thr"]), c["desc"])
+            else:
+                out = D._update_labels(s, pd.Series(t), float(c["thr"]), c["desc"])
+            got = "ok"
+        except ValueError as e:
+            msg = str(e)
+            got = "reject-length" if "same length" in msg else ("reject-labels" if "should be boolean" in msg
+                                                                 else "ValueError:" + msg[:60])
+        except Exception as e:
+            got = "other:" + type(e).__name__
+        series = ve.endswith("series-targets")
+        # independent statement of what must be refused
+        bad_labels = (not series) and not all(x in (0, 1, True, False) for x in c["raw"])
+        mismatch = len(c["raw"]) != len(c["scores"])
+        want = "reject-labels" if bad_labels else ("reject-length" if mismatch else "ok")
+        chk.case(None, ("refused", ve, c["vkind"], c["lkind"], len(c["scores"]), len(c["raw"])))
+        chk.count("validation", f"{ve}:{c['vkind']}:{got}")
+        mod = model if isinstance(model, str) else "ok"
+        if got != want:
+            if want == "ok" and c["lkind"] != "bool" and ve.startswith("_update_labels"):
+                chk.spec_violation(f"labels-nonbool-encoding:{'_update_labels' if ve == '_update_labels' else ve}",
+                                   dict(vcase=vjson(c), impl=got, expected=want, clause="_update_labels raised"))
+            elif got == "ok" or want == "ok":
+                chk.spec_violation(f"input-validation:{ve}",
+                                   dict(vcase=vjson(c), impl=got, expected=want,
+                                        clause="arrays of different length / labels outside {0,1} accepted, or a "
+                                               "well-formed input refused"))
+            else:
+                chk.corr_break("tdcchk", dict(vcase=vjson(c), impl=got, model=mod, expected=want))
+            continue
+        if mod != got:
+            chk.corr_break("tdcchk" if ve in ("tdc", "qvalues_from_scores") else "labelschk",
+                           dict(vcase=vjson(c), impl=got, model=mod))
+            continue
+        if got != "ok":
+            chk.reject(got)
+            continue
+        # accepted: values against the model of the validated entry (exact labelling known: 0/1 or astype(bool))
+        if ve in ("tdc", "qvalues_from_scores"):
+            mq = [rounded(a_rat(x)) for x in model]
+            if [float(x) for x in out] != mq:
+                chk.corr_break("tdcchk", dict(vcase=vjson(c), impl=[float(x) for x in out], model=model))
+        else:
+            ml = [a_int(x) for x in model]
+            lab = [int(x) for x in out]
+            if lab != ml:
+                # decide spec vs correspondence with the direct restatement on the 0/1 labelling
+                if all(x in (0, 1, True, False) for x in c["raw"]):
+                    chk.spec_violation(f"labels-nonbool-encoding:{ve}" if c["lkind"] != "bool" else f"labels:{ve}", dict(vcase=vjson(c), impl=lab, expected=ml,
+                                                             clause="training labels differ from spec"))
+                else:
+                    chk.corr_break("labelschk", dict(vcase=vjson(c), impl=lab, model=ml))
+
+
+def validation(chk, rng, n):
+    eval_vcases(chk, [gen_vcase(rng) for _ in range(n)])
+
+
+# ----------------------------------------------------------------------------------------------
+# the helper _fdr2qvalue called directly (anchor 2), on arrays satisfying its contract:
+# one length, `num_total` cumulative (strictly decreasing once flipped), group sizes >= 1 covering the arrays
+# ----------------------------------------------------------------------------------------------
+def gen_fcase(rng):
+    n = rng.choice([1, 2, 3, 4, 5, 6, 8, 12, 20])
+    counts = []
+    left = n
+    while left:
+        c = rng.randint(1, min(left, rng.choice([1, 2, 4])))
+        counts.append(c)
+        left -= c
+    style = rng.choice(["any", "any", "rising", "falling", "above-one"])
+    fdr = [Fraction(rng.randint(1, 40), 16) for _ in range(n)]     # exact in float32; values above 1 occur
+    if style == "rising":
+        fdr.sort()
+    elif style == "falling":
+        fdr.sort(reverse=True)
+    elif style == "above-one":
+        fdr = [x + 1 for x in fdr]
+    top = n + rng.randint(0, 5)
+    nt = sorted(rng.sample(range(1, top + n + 1), n), reverse=True)
+    return dict(fdr=fdr, nt=nt, counts=counts, style=style)
+
+
+def eval_fcases(chk, cases):
+    import mokapot.qvalues as Q
+
+    resp = common.driver_batch([req("fdr2q", c["fdr"], c["nt"], c["counts"]) for c in cases])
+    for c, r in zip(cases, resp):
+        model = dec(r)
+        n = len(c["fdr"])
+        # the array types tdc itself passes: flipped float32 / int64 views, ascending unique values, int64 counts
+        fdr = np.flip(np.array([float(x) for x in reversed(c["fdr"])], dtype=np.float32))
+        nt = np.flip(np.array(list(reversed(c["nt"])), dtype=np.int64))
+        met = np.arange(len(c["counts"]), dtype=np.float64)
+        ind = np.array(c["counts"], dtype=np.int64)
+        js = dict(fcase=dict(fdr=[str(x) for x in c["fdr"]], nt=c["nt"], counts=c["counts"], style=c["style"]))
+        try:
+            out = [float(x) for x in Q._fdr2qvalue(fdr, nt, met, ind)]
+        except Exception as e:
+            chk.corr_break("fdr2q", dict(js, impl="exception " + repr(e)[:200], model=model))
+            continue
+        chk.case(None, ("fdr2q", tuple(c["fdr"]), tuple(c["nt"]), tuple(c["counts"])))
+        chk.count("fdr2q-direct", c["style"])
+        chk.count("fdr2q-groups", min(len(c["counts"]), 8))
+        # independent restatement: running minimum (started at 1) of the FDR standing where num_total peaks in each group
+        exp, lo, pos = [], Fraction(1), 0
+        for g in c["counts"]:
+            seg = list(range(pos, pos + g))
+            j = max(seg, key=lambda i: (c["nt"][i], -i))
+            lo = min(lo, c["fdr"][j])
+            exp += [lo] * g
+            pos += g
+        expf = [float(x) for x in exp]
+        if out != expf:
+            # the helper is not an entry point of the property: a difference is a broken correspondence,
+            # the failing-input search then looks for an effect on tdc
+            chk.corr_break("fdr2q", dict(js, impl=out, model=model, expected=[str(x) for x in exp]))
+        elif not isinstance(model, list) or [float(a_rat(x)) for x in model] != out:
+            chk.corr_break("fdr2q", dict(js, impl=out, model=model))
+
+
+def fdr2q_direct(chk, rng, n):
+    eval_fcases(chk, [gen_fcase(rng) for _ in range(n)])
+
+
 def exhaustive(chk, nmax, nvals):
     cases = []
     for n in range(1, nmax + 1):
@@ -319,11 +637,57 @@ def exhaustive(chk, nmax, nvals):
     chk.extra["exhaustive_sweep"] = f"all score vectors over {nvals} values x labellings x directions, n<={nmax}: {len(cases)} cases"
 
 
+def unsupported_dtypes(chk):
+    """score dtypes numba has no kernel for (half and extended precision): the code refuses them; outside
+    "all supported dtypes", tallied so that the boundary is on record"""
+    import mokapot.qvalues as Q
+
+    for dt in ("float16", "longdouble"):
+        try:
+            q = Q.tdc(np.array([3, 2, 2, 1], dtype=dt), np.array([True, False, True, True]))
+            chk.count("score-dtype-outside", f"{dt}:accepted")
+            if [float(x) for x in q] != [rounded(Fraction(2, 3))] * 4:
+                chk.spec_violation(f"qvalue-formula:tdc:{dt}", dict(dtype=dt, impl=[float(x) for x in q],
+                                                                   clause="q-value differs from the defining formula"))
+        except Exception as e:
+            chk.reject(f"score-dtype-{dt}:{type(e).__name__}")
+    # integer dtypes are cast to float32 (qvalues.py:106-107): an order embedding below 2^24 only. On record:
+    # what the code does beyond ("small-integer dtype" is read as excluding such values; see GAPS-C01.md G1-d)
+    big = np.array([2 ** 24 + 2, 2 ** 24 + 1, 2 ** 24], dtype=np.int64)
+    q = [float(x) for x in Q.tdc(big, np.array([True, True, False]))]
+    chk.count("int-scores-above-2^24", "kept-apart" if q == [0.5, 0.5, 1.0] else "merged-by-float32-cast")
+
+
+def pinned_cases():
+    """hand-picked inputs run first on every seed: 0/1 integer and float labellings handed to the label entry
+    points as arrays (the decoy of row 1 was labelled +1 by `new_labels[~targets] = -1` on an integer array),
+    one-row inputs, a group of ties straddling the threshold in both directions"""
+    out = []
+    base = dict(sdtype="float64", layout="C", pat="pinned", vstyle="pinned", entry="tdc")
+    for lk, ldt in (("int01", "int64"), ("int01", "uint8"), ("int01", "int8"), ("float01", "float64"),
+                    ("float01", "float32"), ("bool", "bool")):
+        for lentry in ("_update_labels", "_update_labels-series", "LinearPsmDataset",
+                       "_update_labels-array-scores-series-targets"):
+            for desc in (True, False):
+                sc = [5, 4, 3, 2, 1] if desc else [1, 2, 3, 4, 5]
+                out.append(dict(base, scores=[Fraction(x) for x in sc], labels=[True, False, True, True, False],
+                                desc=desc, lkind=lk, ldtype=ldt, llkind=lk, lldtype=ldt, lentry=lentry,
+                                thr=Fraction(1, 2)))
+        out.append(dict(base, scores=[Fraction(7)], labels=[True], desc=True, lkind=lk, ldtype=ldt, llkind=lk,
+                        lldtype=ldt, lentry="_update_labels", thr=Fraction(1)))
+        out.append(dict(base, scores=[Fraction(7)], labels=[False], desc=False, lkind=lk, ldtype=ldt, llkind=lk,
+                        lldtype=ldt, lentry="_update_labels", thr=Fraction(1)))
+        out.append(dict(base, scores=[Fraction(x) for x in (3, 3, 2, 2, 2, 1)],
+                        labels=[True, True, True, False, True, False], desc=True, lkind=lk, ldtype=ldt, llkind=lk,
+                        lldtype=ldt, lentry="_update_labels", thr=Fraction(1, 2)))
+    return out
+
+
 def corpus_cases():
     p = common.VERIF / "harness" / "corpus" / "C01.json"
     if p.exists():
-        return [from_json(d) for d in json.loads(p.read_text())]
-    return []
+        return pinned_cases() + [from_json(d) for d in json.loads(p.read_text())]
+    return pinned_cases()
 
 
 def search(chk):
@@ -376,19 +740,34 @@ def main(chk, args):
         k = sum(c["labels"][i] for i in range(len(c["labels"])))
         c["thr"] = Fraction(rng.choice([0.3, 0.5, 0.6, 0.75]))
         cases.append(c)
+    for _ in range(n // 10):
+        c = gen_boundary_case(rng)
+        thr = c["thr"]
+        c = decorate(rng, c)
+        c["thr"] = thr
+        cases.append(c)
     eval_cases(chk, cases, None)
     malformed(chk, rng, 100 if chk.tier == "quick" else 1000)
+    validation(chk, rng, 120 if chk.tier == "quick" else 1500)
+    fdr2q_direct(chk, rng, 200 if chk.tier == "quick" else 3000)
+    unsupported_dtypes(chk)
     if chk.tier == "thorough":
         exhaustive(chk, 6, 3)
     else:
         exhaustive(chk, 4, 3)
     minimise(chk)
-    lc = common.leanchecker("C01") if chk.tier == "thorough" else None
+    lc = None
+    if chk.tier == "thorough":      # both property modules
+        lc1, lc2 = common.leanchecker("C01"), common.leanchecker("C01Arr")
+        lc = (lc1[0] and lc2[0], lc1[1] + lc2[1])
     chk.assumptions += [
         "IEEE rounding of the single division (cum_decoys+1)/cum_targets is reproduced with the same numpy "
         "primitive (np.divide into a float32 out-array); the model works over exact rationals",
         "np.argsort / np.unique / cumsum behave as documented; numba executes _fdr2qvalue as written",
-        "scores are finite and exactly representable in their dtype (integers, dyadic rationals)",
+        "scores are finite and exactly representable in their dtype (integers, dyadic rationals); integer scores "
+        "stay below 2^24 in magnitude (tdc casts integer dtypes to float32, larger values would merge)",
+        "_fdr2qvalue is driven directly only on arrays satisfying its contract (one length, cumulative num_total, "
+        "group sizes >= 1 covering the arrays)",
     ]
     chk.finish(build, RULE, search=search, lc=lc,
                trusted_extra=["numpy argsort/unique/cumsum/divide, numba njit"])
@@ -396,6 +775,12 @@ def main(chk, args):
 
 def replay(chk, path):
     info = json.loads(open(path).read())
+    if "vcase" in info:
+        common.build_and_audit("C01")
+        eval_vcases(chk, [vfrom_json(info["vcase"])])
+        for sig, i in chk.spec_violations:
+            print("REPRODUCED", sig, json.dumps(i)[:1500])
+        return 1 if chk.spec_violations else 0
     if "case" not in info:
         print(json.dumps(info, indent=1)[:3000])
         return 0
